@@ -13,8 +13,9 @@ def elementSkeleton : List (String × List String) := [
   ("column:Column.hashValue", ["call EscapeSqlName", "call typeDefinition", "call Sum", "return", "call EncodeToString"]),
   ("column:Column.migrationCommentUp", ["if c.CurrentAttr.Comment == \"\" || sql.GetDialect() != sql_templates.PostgresDialect", "then{", "return", "}", "return", "call Sprintf", "call ColumnComment"]),
   ("column:Column.migrationDown", ["switch c.Action", "cases{", "case MigrateNoAction", "return", "case MigrateAddAction", "case MigrateRemoveAction", "case MigrateModifyAction", "case MigrateRenameAction", "case default", "return", "}", "return", "call migrationUp"]),
-  ("column:Column.migrationUp", ["switch c.Action", "cases{", "case MigrateNoAction", "return", "case MigrateAddAction", "call EscapeSqlName", "if ident > len(c.Name)", "then{", "call Repeat", "}", "call definition", "if ident < 0", "then{", "if ignoreFieldOrder", "then{", "return", "call Sprintf", "call AlterTableAddColumnStm", "call EscapeSqlName", "}", "if after != \"\"", "then{", "return", "call Sprintf", "call AlterTableAddColumnAfterStm", "call EscapeSqlName", "call EscapeSqlName", "}", "return", "call Sprintf", "call AlterTableAddColumnFirstStm", "call EscapeSqlName", "}", "return", "call migrationCommentUp", "case MigrateRemoveAction", "if sql.IsSqlite()", "then{", "return", "}", "return", "call Sprintf", "call AlterTableDropColumnStm", "call EscapeSqlName", "call EscapeSqlName", "case MigrateModifyAction", "call pkDefinition", "if isPk", "then{", "call pkDefinition", "if isPrevPk", "then{", "call Replace", "call PrimaryOption", "}", "}", "return", "call Sprintf", "call AlterTableModifyColumnStm", "call EscapeSqlName", "call EscapeSqlName", "case MigrateRevertAction", "call pkDefinition", "if isPrevPk", "then{", "call pkDefinition", "if isPk", "then{", "call Replace", "call PrimaryOption", "}", "}", "return", "call Sprintf", "call AlterTableModifyColumnStm", "call EscapeSqlName", "call EscapeSqlName", "case MigrateRenameAction", "return", "call Sprintf", "call AlterTableRenameColumnStm", "call EscapeSqlName", "call EscapeSqlName", "call EscapeSqlName", "case default", "return", "}"]),
-  ("column:Column.pkDefinition", ["if isPrev", "then{", "}", "call typeDefinition", "range attr.Options", "do{", "if opt.Tp == ast.ColumnOptionPrimaryKey", "then{", "}", "call NewBufferString", "if sql.IsLowercase()", "then{", "call NewRestoreCtx", "}", "else{", "call NewRestoreCtx", "}", "if sql.IsPostgres() && opt.Tp == ast.ColumnOptionDefaultValue", "then{", "continue", "}", "if opt.Tp == ast.ColumnOptionReference && opt.Refer == nil", "then{", "continue", "}", "call Restore", "call String", "}", "return"]),
+  ("column:Column.migrationUp", ["switch c.Action", "cases{", "case MigrateNoAction", "return", "case MigrateAddAction", "call EscapeSqlName", "if ident > len(c.Name)", "then{", "call Repeat", "}", "call definition", "if ident < 0", "then{", "if ignoreFieldOrder", "then{", "return", "call Sprintf", "call AlterTableAddColumnStm", "call EscapeSqlName", "}", "if after != \"\"", "then{", "return", "call Sprintf", "call AlterTableAddColumnAfterStm", "call EscapeSqlName", "call EscapeSqlName", "}", "return", "call Sprintf", "call AlterTableAddColumnFirstStm", "call EscapeSqlName", "}", "return", "call migrationCommentUp", "case MigrateRemoveAction", "if sql.IsSqlite()", "then{", "return", "}", "return", "call Sprintf", "call AlterTableDropColumnStm", "call EscapeSqlName", "call EscapeSqlName", "case MigrateModifyAction", "call pkDefinition", "if isPk", "then{", "call pkDefinition", "if isPrevPk", "then{", "call optionsDefinition", "}", "}", "return", "call Sprintf", "call AlterTableModifyColumnStm", "call EscapeSqlName", "call EscapeSqlName", "case MigrateRevertAction", "call pkDefinition", "if isPrevPk", "then{", "call pkDefinition", "if isPk", "then{", "call optionsDefinition", "}", "}", "return", "call Sprintf", "call AlterTableModifyColumnStm", "call EscapeSqlName", "call EscapeSqlName", "case MigrateRenameAction", "return", "call Sprintf", "call AlterTableRenameColumnStm", "call EscapeSqlName", "call EscapeSqlName", "call EscapeSqlName", "case default", "return", "}"]),
+  ("column:Column.optionsDefinition", ["if isPrev", "then{", "}", "call typeDefinition", "range attr.Options", "do{", "if opt.Tp == ast.ColumnOptionPrimaryKey", "then{", "if skipPk", "then{", "continue", "}", "}", "call NewBufferString", "if sql.IsLowercase()", "then{", "call NewRestoreCtx", "}", "else{", "call NewRestoreCtx", "}", "if sql.IsPostgres() && opt.Tp == ast.ColumnOptionDefaultValue", "then{", "continue", "}", "if opt.Tp == ast.ColumnOptionReference && opt.Refer == nil", "then{", "continue", "}", "call Restore", "call String", "}", "return"]),
+  ("column:Column.pkDefinition", ["return", "call optionsDefinition"]),
   ("column:Column.typeDefinition", ["if isPrev", "then{", "}", "switch ", "cases{", "case sql.IsPostgres() && attr.PgType != nil", "return", "call SQLString", "case sql.IsSqlite() && attr.LiteType != nil", "return", "case attr.MysqlType != nil", "return", "call String", "}", "return"]),
   ("foreign_key:ForeignKey.hashValue", ["call Join", "call migrationUp", "call Sum", "return", "call EncodeToString"]),
   ("foreign_key:ForeignKey.migrationDown", ["switch fk.Action", "cases{", "case MigrateNoAction", "return", "case MigrateAddAction", "case MigrateRemoveAction", "case MigrateModifyAction", "case MigrateRenameAction", "case default", "return", "}", "return", "call migrationUp"]),
